@@ -498,7 +498,7 @@ theorem removePDR_pres (s : Sess) (ie : RuleIE) (c : Ctx) :
         apply sinv_call s s dp _ _ (by rfl) (by rfl) hs hnat
         · intro k i hm; exact Or.inr (hs k i hm)
         · intro _ h; simp at h
-      · have h1 : Pres s ({ s with pdrs := (alDel s.pdrs pdrid) } : Sess) c
+      · have h1 : Pres s ({ s with pdrs := (alDel s.pdrs pdrid), q := alDel s.q pdrid } : Sess) c
             (c.call { seid := s.localID, op := .remove, kind := .pdr, id := pdrid }).1 := by
           apply pres_one_call s _ c _ (by rfl) (by rfl)
           intro dp hs hnat
